@@ -158,15 +158,17 @@ Record rstate := RS {
   wat : wpc;
   thr : tid -> tpc;
   run_n : nat;                 (* ghost: handlers registered when Run's RunHandlers took the lock *)
-  panicked : bool              (* runtime panic inside a router goroutine (negative WaitGroup counter) *)
+  panicked : bool;             (* runtime panic inside a router goroutine (negative WaitGroup counter) *)
+  wremoved : bool              (* ghost: the WATCHER's own Close released and removed a handler, i.e. a handler was added
+                                  while the router was closing itself (the property's quantifier excludes this) *)
 }.
 #[export] Instance eta_rstate : Settable _ := settable! RS
   <fix4; fix14; fix15; fix16; nexth; hs; isRunning; runningCh; hlock; clock; hwg; hadded; maplen; closingCh;
-   closedCh; closedF; closeErr; cctx; rcancel; pubClosed; mainp; maint; wat; thr; run_n; panicked>.
+   closedCh; closedF; closeErr; cctx; rcancel; pubClosed; mainp; maint; wat; thr; run_n; panicked; wremoved>.
 
 Definition rinit (f4 f14 f15 f16 : bool) : rstate :=
   RS f4 f14 f15 f16 0 (fun _ => h0) false false None None 0 0 0 false false false false false false
-     (fun _ => false) RNone 0 WNone (fun _ => TNone) 0 false.
+     (fun _ => false) RNone 0 WNone (fun _ => TNone) 0 false false.
 
 (** API-level events (what a client / the scripted collaborators can see) *)
 Inductive aev :=
@@ -287,7 +289,8 @@ Definition cl_step (s : rstate) (me : owner) (p : clpc) (c : choice) : option (r
       match hlock s with None => Some (s <| hlock := Some me |>, KCheck) | Some _ => None end
   | KCheck, CStep =>
       if closedF s then Some (s <| hlock := None |> <| clock := None |>, KRet (negb (closeErr s)))
-      else Some (close_unstarted s <| closedF := true |> <| closingCh := true |>, KWait)
+      else Some (close_unstarted s <| closedF := true |> <| closingCh := true |>
+                   <| wremoved := wremoved s || (match me with OWatch => fix16 s && negb (all_started s) | _ => false end) |>, KWait)
   | KWait, CStep =>
       if Nat.eqb (hwg s) 0 && none_inflight s then Some (s, KFinish true) else None
   | KWait, CAlt => Some (s <| closeErr := true |>, KFinish false)
